@@ -55,7 +55,7 @@ type Tmpl struct {
 	Name     string // short name (without leading dot)
 	Params   []Param
 	Header   bool // header params instead of soydoc
-	BothDecl bool // (C07) both soydoc and header params
+	BothDecl int  // (C07) both soydoc and header params: 0 no; 1 every param in both; 2 first param in the soydoc, the others in the header; 3 last param in the header, the others in the soydoc
 	Body     []*Cmd
 	Autoesc  string // template autoescape attribute ("" = unset)
 	NoDoc    bool
@@ -178,9 +178,34 @@ func (c *Cmd) src() string {
 
 func (t *Tmpl) src() string {
 	var b strings.Builder
-	if !t.NoDoc && (!t.Header || t.BothDecl) {
+	inDoc := func(i int) bool {
+		switch t.BothDecl {
+		case 1:
+			return true
+		case 2:
+			return i == 0
+		case 3:
+			return i != len(t.Params)-1
+		}
+		return !t.Header
+	}
+	inHeader := func(i int) bool {
+		switch t.BothDecl {
+		case 1:
+			return true
+		case 2:
+			return i != 0
+		case 3:
+			return i == len(t.Params)-1
+		}
+		return t.Header
+	}
+	if !t.NoDoc && (!t.Header || t.BothDecl != 0) {
 		b.WriteString("/**\n")
-		for _, p := range t.Params {
+		for i, p := range t.Params {
+			if !inDoc(i) {
+				continue
+			}
 			if p.Optional {
 				b.WriteString(" * @param? " + p.Name + "\n")
 			} else {
@@ -194,13 +219,14 @@ func (t *Tmpl) src() string {
 		b.WriteString(" autoescape=\"" + t.Autoesc + "\"")
 	}
 	b.WriteString("}\n")
-	if t.Header || t.BothDecl {
-		for _, p := range t.Params {
-			if p.Optional {
-				b.WriteString("{@param? " + p.Name + ": ?}\n")
-			} else {
-				b.WriteString("{@param " + p.Name + ": ?}\n")
-			}
+	for i, p := range t.Params {
+		if !inHeader(i) {
+			continue
+		}
+		if p.Optional {
+			b.WriteString("{@param? " + p.Name + ": ?}\n")
+		} else {
+			b.WriteString("{@param " + p.Name + ": ?}\n")
 		}
 	}
 	b.WriteString(srcCmds(t.Body))
@@ -277,7 +303,7 @@ func checkRules(files []*File) ruleSet {
 	}
 	for _, f := range files {
 		for _, t := range f.Tmpls {
-			if t.BothDecl && len(t.Params) > 0 {
+			if t.BothDecl == 1 && len(t.Params) > 0 || t.BothDecl > 1 && len(t.Params) > 1 {
 				rules["both-soydoc-and-header-params"] = true
 			}
 			top := &frame{}
